@@ -448,6 +448,26 @@ impl<'b> DispatcherBuilder<'static, 'b> {
     }
 }
 
+#[cfg(feature = "verif-hooks")]
+#[allow(missing_docs)]
+impl<'a, 'b> DispatcherBuilder<'a, 'b> {
+    pub fn verif_stages_builder(&self) -> &StagesBuilder<'a> {
+        &self.stages_builder
+    }
+
+    pub fn verif_stages_builder_mut(&mut self) -> &mut StagesBuilder<'a> {
+        &mut self.stages_builder
+    }
+
+    pub fn verif_thread_local_len(&self) -> usize {
+        self.thread_local.len()
+    }
+
+    pub fn verif_current_id(&self) -> usize {
+        self.current_id
+    }
+}
+
 impl fmt::Debug for DispatcherBuilder<'_, '_> {
     fn fmt(&self, f: &mut fmt::Formatter) -> fmt::Result {
         self.stages_builder.write_par_seq(f, &self.map)
